@@ -41,6 +41,8 @@ def gen_consts(v):
         ('AN_VERSION', '%sArtNetNodeImpl::ARTNET_VERSION' % an),
         ('AN_MAX_PORTS', '%sARTNET_MAX_PORTS' % an),
         ('AN_NODE_TIMEOUT', '%sArtNetNodeImpl::NODE_TIMEOUT' % an),
+        ('AN_MERGE_TIMEOUT', '%sArtNetNodeImpl::MERGE_TIMEOUT' % an),
+        ('AN_MAX_MERGE_SOURCES', '%sArtNetNodeImpl::MAX_MERGE_SOURCES' % an),
         ('AN_OFF_version', 'offsetof(%sartnet_dmx_t, version)' % an),
         ('AN_OFF_sequence', 'offsetof(%sartnet_dmx_t, sequence)' % an),
         ('AN_OFF_physical', 'offsetof(%sartnet_dmx_t, physical)' % an),
@@ -133,7 +135,9 @@ RULE = ('frames of every length 0-512 x {random, all-equal, ramp, alternating, n
         'rounds to a receiver with handlers on a sample of them (both revisions), E1.31 streams with per-frame priority '
         'changes; Art-Net receivers with 2-4 output ports on the same or mixed addresses; Art-Net two-node histories on a '
         'virtual clock (>= 120 s, ArtPoll/ArtPollReply exchanged at intervals below and above the 31 s age-out, unicast '
-        'and always-broadcast senders); transmit DmxBuffers carry history (an earlier, longer frame left in the '
+        'and always-broadcast senders); long-lived sender AND receiver node objects per protocol with scripts over four universes, repeated / identical '
+        'frames and public setters between sends (names, StartStream, port re-configuration); Art-Net ports with two or '
+        'three senders, joins and silences across the 10 s merge timeout, HTP and LTP; transmit DmxBuffers carry history (an earlier, longer frame left in the '
         '512-byte block; explicit dirty-block cases for Encode and ShowNet with short frames); Art-Net sender and receiver '
         'as separate nodes with 0/1/4 input ports and the address setters called in every order before/after Start(); '
         'non-trivial = complete encode / whole decode / datagram handled; '
@@ -175,7 +179,10 @@ LEVEL_TEXT = ('Coq theorems, for all frames of 1-512 slots and all addresses, ab
               'c07_pathport_history / c07_partial_slotwise (after any sequence of partial frames each slot holds the last '
               'frame that covered it, other slots untouched), c07_addressing (a datagram reaches the handler of its own '
               'address and no other), c07_sandnet_compressed_receive, c07_empty_frames; '
-              'c07_e131_multi_universe: for any interleaving of sends over any universes by one sender each handler sees '
+              'c07_artnet_remaining_sender (two merge slots, LTP/HTP: once the other sender is silent beyond the 10 s merge '
+              'timeout the remaining sender\'s frame is reproduced exactly), c07_e131_sender_script (SetSourceName / '
+              'StartStream between sends never disturb a stream), c07_shownet_sender_history (one sender, any universes, '
+              'identical frames, renames); c07_e131_multi_universe: for any interleaving of sends over any universes by one sender each handler sees '
               'exactly the frames of its own universe (rev 3 proved; rev 2 multi-universe correspondence-tested); plus RunLengthEncoder lossless / bounded / false-iff-truncated / count bytes in 1..127 for all '
               'frames and capacities.  The models are tied to the C++ (real node objects, ASan/UBSan, datagram bytes '
               'compared) by a differential correspondence check; receivers are modelled with one handler and no '
@@ -446,6 +453,46 @@ def gen_cases(rng, tier):
     yield 'an 1 2 3 0 3 none 0 -'
     yield 'e1 0 5 5 0102 0 100 0 - -'
     yield 'e1 1 5 5 0102 0 100 0 - -'
+    # ---- long-lived sender and receiver nodes: histories over four universes with repeated / identical frames
+    #      and configuration calls (name setters, StartStream, port re-configuration ...) between the sends
+    for proto in ('sn', 'sa', 'es', 'pp', 'an', 'e1', 'e2'):
+        for _ in range(6 if quick else 60):
+            npool = rng.choice([1, 2, 3])
+            pool = [[rng.randrange(256) for _ in range(rng.choice([1, 2, 5, 24, 511, 512]))] for _ in range(npool)]
+            toks = []
+            n = rng.choice([6, 12, 30]) if quick else rng.choice([6, 12, 30, 300])
+            for i in range(n):
+                r = rng.random()
+                slot = rng.randrange(4) if rng.random() < 0.7 else rng.randrange(2)
+                if r < 0.12:
+                    toks.append('n%d%d' % (slot, rng.randrange(3)))
+                elif r < 0.2:
+                    toks.append('x%d' % slot)
+                else:
+                    toks.append('s%d%d' % (slot, rng.randrange(npool)))
+            yield 'hist %s %s %s' % (proto, '/'.join(hx(f) for f in pool), ','.join(toks))
+        # the same frame to every universe in turn, and a rename in the middle of a long stream
+        yield 'hist %s %s %s' % (proto, hx([7, 7, 7, 9]), 's00,s10,s20,s30,s00,s10')
+        for k in (1, 5, 20, 21, 260):
+            yield 'hist %s %s %s' % (proto, hx([1, 2, 3]) + '/' + hx([4, 5]),
+                                     ','.join(['s0%d' % (i & 1) for i in range(k)] + ['n01', 'x0'] + ['s0%d' % (i & 1) for i in range(3)]))
+    # ---- Art-Net receiver port with several senders: a second / third sender joins, one goes silent across
+    #      the merge timeout (waits are multiples of 3 s so that a gap is never exactly the 10 s timeout)
+    for ltp in (0, 1):
+        yield 'anm %d %s %s' % (ltp, hx([200, 200, 200, 200]) + '/' + hx([1, 2, 3, 4]),
+                                'a0,w3,b1,w3,b1,w3,b1,w6,b1,w3,b1')
+        yield 'anm %d %s %s' % (ltp, hx([9, 0, 9, 0, 9]) + '/' + hx([0, 7]), 'b0,w3,a1,w12,a1,w3,a1,b0,w24,b0')
+        for _ in range(8 if quick else 150):
+            npool = rng.choice([2, 3])
+            pool = [[rng.randrange(256) for _ in range(rng.choice([1, 2, 5, 24, 511, 512]))] for _ in range(npool)]
+            toks = []
+            for i in range(rng.choice([8, 16, 30])):
+                r = rng.random()
+                if r < 0.35:
+                    toks.append('w%d' % rng.choice([3, 3, 6, 12, 24]))
+                else:
+                    toks.append('%s%d' % (rng.choice('aabbc'), rng.randrange(npool)))
+            yield 'anm %d %s %s' % (ltp, '/'.join(hx(f) for f in pool), ','.join(toks))
     if not quick:
         # all addresses of the small address spaces
         f = [1, 2, 3, 3, 3, 9]
@@ -480,6 +527,6 @@ def nontrivial(payload, md):
         return md.get('ret') == '1' and md.get('size') not in (None, '0')
     if op == 'dec':
         return md.get('dret') == '1' and md.get('dbuf') not in (None, 'none')
-    if op in ('e1s', 'e1m', 'an3', 'anu', 'e1p', 'sac'):
+    if op in ('e1s', 'e1m', 'an3', 'anu', 'e1p', 'sac', 'hist', 'anm'):
         return md.get('spec') == '1'
     return md.get('handled') == '1'
